@@ -83,8 +83,8 @@ VictimMember == \A P \in Contents : /\ Victims(s, P) # {} /\ Victims(s, P) \subs
 VictimSomeWhenNonEmpty == \A P \in Contents : P # {} => None \notin Victims(s, P)
 (* (holds as implemented:) at least the caller's own cache gets one, every key having come in through on_insert *)
 VictimForOwnCache == \A P \in SUBSET cache : P # {} => None \notin Victims(s, P)
-(* the set of answers is exactly what the iteration orders of the presented map can produce *)
-VictimsAgree == \A P \in Contents : Victims(s, P) = UNION {VictimsSeq(s, q) : q \in Perms(P)}
+(* the set of answers is exactly what the iteration orders of the presented map can produce (only LFU looks at the order) *)
+VictimsAgree == s.kind = "LFU" => \A P \in Contents : Victims(s, P) = UNION {VictimsSeq(s, q) : q \in Perms(P)}
 (* LRU names the least recently used of the presented cached keys *)
 LruNamesLeastRecent == s.kind = "LRU" => \A P \in SUBSET cache : P # {} => Victims(s, P) = {FirstIn(ref.order, P)}
 (* FIFO names the presented cached key that came in first *)
